@@ -29,30 +29,29 @@ from .. import leanio, pyextract
 from ..core import Ctx, ExtractError, load_corpus
 
 ID = "C18"
-LEVEL = "partial"
+LEVEL = "proof"
+STRENGTH = "partial"   # clauses (1) allowed-iff, (2) returned JSON patch, (3) transformations are guarded: see LEVEL_TEXT
 ENGINES = ["lean-model", "pyextract", "purediff"]
 LEVEL_TEXT = (
-    "Lean theorems, no size/depth bounds. Response: allowed_iff, status_iff_denied, error_priority (minimal sort key, "
-    "first among equals), prio_strict_order, warnings_order, patch_field_spec (patch/patchType present exactly when "
-    "there are operations, independent of the outcomes, i.e. also on denial). Selection (code after cc4195a): gate_spec "
-    "is the FULL clause — type hint, webhook id, the request's operation among the handler's declared ones, DELETE "
-    "exclusion of mutating handlers unless opted in, subresource, filters; select_spec (selected => registered and "
-    "passing the gate, registry order, no function/id pair twice), stacked_registration_selected (one function "
-    "registered several times under one id: if ANY registration passes the gate the function is selected exactly once "
-    "— deduplication after matching, as registries._deduplicated is applied), hinted_only_that_handler, "
-    "gate_enforces_operations (every selected handler's declared operations admit the request's operation, the same "
-    "test as the rule sent to the apiserver, tied to build_webhooks), restricted_handler_skipped (the former C18-F3 "
-    "witness, generalised, is now rejected). Whole review: serve_allowed_iff "
-    "(allowed iff no SELECTED handler raised), serve_warnings_order. Mutation, for ALL mapping bodies and ALL patches "
-    "(code after 74dc18a): apply_total, fidelity (leaves of the mutated body = leaves of the RFC 7386 merge at every "
-    "path, i.e. equality up to key order and empty mappings; dropEmpty_leafEq), fidelity_fns (with the transformation "
-    "functions block_deletion/allow_deletion applied in order, whenever code path and reference path both return), and "
-    "returned_patch_fidelity: the patch in the RESPONSE, applied to the reviewed object, yields the reference object "
-    "up to empty mappings — with jsonpatch's contract (apply a (from_diff a b) = b, apply a [] = a) as explicit "
-    "hypotheses; jsonpatch 1.33 breaks that contract on the inputs of the open findings C18-F4, C18-F5. "
-    "apply_nonmapping_root_raises shows the one remaining guard (the body is a mapping) is needed. Not characterised by a "
-    "theorem: WHEN the two framework functions raise (ill-typed metadata/finalizers; compared by the D-tie as error "
-    "tags); failure paths of serve_admission_request before the handlers run (missing data, unknown/ambiguous resource).")
+    "PARTIAL. Unguarded Lean theorems (no size/depth bounds): allowed_iff, status_iff_denied, error_priority (minimal "
+    "sort key, first among equals), prio_strict_order, warnings_order, patch_field_spec; selection: gate_spec (the full "
+    "clause incl. the operation, code after cc4195a), select_spec, stacked_registration_selected (dedup only AFTER "
+    "matching), gate_enforces_operations, restricted_handler_skipped, hinted_only_that_handler; mutation for ALL "
+    "mapping bodies and ALL patches (code after 74dc18a): apply_total, fidelity (leaves of the mutated body = leaves "
+    "of the RFC 7386 merge at every path; dropEmpty_leafEq relates that to the drop-empty normal form, converse not "
+    "proved), apply_nonmapping_root_raises (the one guard is needed); serve_warnings_order; serve_allowed_exact (what "
+    "the code does: allowed iff none of the selected handlers that are the LAST of their id raised — outcomes are "
+    "keyed by id). Clauses proved only under a guard / hypothesis: (1) 'allowed iff no selected handler raised' is "
+    "FALSE of the code for two different functions under one id (same_id_denial_lost_witness, open finding C18-F6, "
+    "replayed from the corpus); serve_allowed_iff_partial holds when the selected ids are pairwise different. (2) 'the "
+    "returned JSON patch applied to the object': returned_patch_fidelity takes, as a hypothesis, that jsonpatch's "
+    "output for THIS review reproduces the wanted body (pointwise contract) — checked on every generated case by an "
+    "independent RFC 6902 applier; jsonpatch 1.33 fails it on the inputs of the open findings C18-F4/C18-F5. (3) "
+    "'transformations applied': fidelity_fns for the two framework functions (block_deletion/allow_deletion), whenever "
+    "code path and reference path both return; the model lets them raise on EVERY non-list finalizers / non-mapping "
+    "metadata (the real functions are also silent on a few falsy or key-free ill-typed values): such bodies are outside "
+    "the model and are not generated. Oracle/tie only: base64/JSON encoding of the patch, pointer escaping, uid echo, "
+    "failure paths of serve_admission_request before the handlers run.")
 TIE = ("T (sort key of build_response, class hierarchy of AdmissionError, iter_handlers gate, _matches_subresource and "
        "its use in match(), rules[].operations of build_webhooks: AST -> Lean, re-proved equal; the allowed/errors/"
        "status/warnings/patch statements of build_response, Patch.__bool__ and the falsy-patch shortcut of "
@@ -97,18 +96,29 @@ RULE = ("three seeded streams: (patch) k8s-shaped and random bodies, patch deriv
         "no-op set, plus new keys; key alphabet with '/', '~', '', unicode), fns from {block_deletion, "
         "allow_deletion}; (serve) registry of 1-4 webhook handlers (reason, operations, subresource incl. '*', "
         "filters, patch piece, fns, warnings, raised error class/code/message; in a third of the cases one function is "
-        "registered 2-3 times under the same id with other reason/operations/subresource/filters) x request (operation incl. DELETE/"
+        "registered 2-3 times under the same id with other reason/operations/subresource/filters, in a quarter two "
+        "different functions share one id) x request (operation incl. DELETE/"
         "CONNECT/None, subresource, webhook and reason hints); (response) real build_response over outcome lists "
         "of length 0-6 with and without a JSON patch (incl. patch on denial); every serve case is also pushed as a whole "
         "through the model's `serve`, and its handlers through build_webhooks. A case is distinct/non-trivial by its (stream, feature tags, result class) abstraction.")
 TRUSTED = [
     "pyextract atom vocabulary for build_response's sort key, WebhooksRegistry.iter_handlers, _matches_subresource",
     "jsonpatch.from_diff by its contract apply(a, from_diff(a, b)) == b (checked on every case through the "
-    "independent RFC 6902 applier; one deviation is listed as a finding)",
+    "independent RFC 6902 applier; two classes of deviations are open findings: C18-F4, C18-F5)",
     "the RFC 6901/6902/7386 reference implementations inside harness/props/c18.py (the Lean mergePatch is "
     "differential-tested against the Python one on every patch case)",
 ]
 ASSUMPTIONS = [
+    "reviewed objects have `metadata` a mapping and `metadata.finalizers` a list of strings (the apiserver enforces "
+    "that schema on every object it sends for review; a handler's own merge-patch could break it, and the apiserver "
+    "would then reject the returned patch): on other shapes the real block_deletion/allow_deletion raise in most cases "
+    "and are silent in a few (falsy `{}`/`\"\"`, mappings/strings not containing the finalizer), the model raises in "
+    "all of them, and the generator drops the transformation functions (fns_safe) — no comparison there",
+    "webhook handlers carry errors/timeout/retries/backoff = None, as the public decorators hard-code them "
+    "(a hand-built WebhookHandler with errors=IGNORED would swallow an arbitrary exception, timeout=0 would deny "
+    "without running the function): not modelled, not generated",
+    "filter callbacks (`when=`, callable label/annotation/value filters) do not raise: an exception there escapes "
+    "serve_admission_request before any response exists, like the pre-handler failures",
     "returned_patch_fidelity assumes jsonpatch's contract as a hypothesis; it is checked on every generated case through "
     "an independent RFC 6902 applier, and is known to fail on the inputs of C18-F4 / C18-F5",
     "a handler's effect on the shared patch object is taken as the final patch content and fns (handlers are arbitrary "
@@ -119,8 +129,8 @@ ASSUMPTIONS = [
     "admits every operation",
     "JSON numbers are integers in generated cases (no floats)",
     "the other filters of match() (selector, labels, annotations, fields, when) are C15's subject: an opaque boolean here",
-    "two DIFFERENT functions never share an id inside one registry (outcomes is a dict keyed by id); ONE function "
-    "registered several times under its id (stacked decorators) is modelled and generated",
+    "registries with ONE function registered several times under its id (stacked decorators) and with TWO different "
+    "functions under one id are both modelled (dedup key (fn, id); outcomes dict keyed by id) and generated",
     "transformation functions are the two the framework queues itself (finalizers.block_deletion/allow_deletion)",
 ]
 
@@ -502,7 +512,7 @@ def err_tag(e: BaseException) -> str:
 # =================================================================================================
 # generators
 # =================================================================================================
-KEYS = ["a", "b", "c", "d", "a/b", "m~n", "~0", "~1", "", "é", "x.y", "k8s.io/n", "~", "/"]
+KEYS = ["a", "b", "c", "d", "a/b", "m~n", "~0", "~1", "", "é", "x.y", "k8s.io/n", "~", "/", "0", "1"]
 SCALARS = [0, 1, -7, 2 ** 40, True, False, "", "s", "a/b", "~1"]
 FINALIZERS = ["kopf.zalando.org/KopfFinalizerMarker", "other.io/f", "x"]
 
@@ -883,12 +893,21 @@ def _raised_inside_jsonpatch(exc: BaseException) -> bool:
     return last is not None and os.path.basename(last.tb_frame.f_code.co_filename) == "jsonpatch.py"
 
 
-def _through_list(body: Any, op: dict) -> bool:
-    """does the `from` or `path` pointer of this op name a position inside a list (by its shape)?"""
+def _through_list(body: Any, op: dict, other: Any = None) -> bool:
+    """does the `from` or `path` pointer of this op name a position inside a LIST of the reviewed object
+    (or of the wanted object)? Decided by walking the documents, not by the look of the token
+    (mapping keys may be digits too)."""
     for ptr in (op.get("from", ""), op.get("path", "")):
         toks = ptr_parse(ptr) if ptr.startswith("/") else []
-        if any(t.isdigit() or t == "-" for t in toks):
-            return True
+        for doc in (body, other):
+            cur = doc
+            for t in toks:
+                if isinstance(cur, list):
+                    return True
+                if isinstance(cur, dict) and t in cur:
+                    cur = cur[t]
+                else:
+                    break
     return False
 
 
@@ -917,7 +936,7 @@ def oracle_patch(res: Result, body: dict, patch: dict, fn_objs: list, ops: Any, 
         got = apply6902(body, ops)
     except (RefError, KeyError, IndexError, TypeError) as e:
         res.result = "inapplicable"
-        moves = any(op.get("op") == "move" and _through_list(body, op) for op in ops)
+        moves = any(op.get("op") == "move" and _through_list(body, op, to_be) for op in ops)
         res.fail(f"the returned JSON patch does not apply to the reviewed object: {e}",
                  SIG_MOVE if moves and to_be is not None else {"site": "Patch.as_json_patch", "shape": "json patch not applicable"})
         return None
@@ -955,7 +974,7 @@ def oracle_patch(res: Result, body: dict, patch: dict, fn_objs: list, ops: Any, 
             res.diff_suspect = True
             if eq_loose_lists(got, to_be) or got == to_be:   # Python ==: True == 1, False == 0
                 sigs.append(SIG_LISTBOOL)
-            elif any(op.get("op") == "move" and _through_list(body, op) for op in ops):
+            elif any(op.get("op") == "move" and _through_list(body, op, to_be) for op in ops):
                 sigs.append(SIG_MOVE)
             elif not eq_strict(strip_empty(got), strip_empty(to_be)):
                 generic = True
